@@ -230,3 +230,100 @@ def connected_pair(sim, latency=(0.0, 0.0), jitter=0.0, auth=True, **kw):
     if auth:
         p.auth_password()
     return p
+
+
+def tap_transport(base, tap, side):
+    """Transport subclass reporting (K, H) and the auth trigger to a LinkTap."""
+
+    class TapTransport(base):
+        def _set_K_H(self, k, h):
+            tap.note_kh(side, k, h)
+            return base._set_K_H(self, k, h)
+
+        def _auth_trigger(self):
+            r = base._auth_trigger(self)
+            tap.note_auth(side)
+            return r
+
+        def _parse_kex_init(self, m):
+            r = base._parse_kex_init(self, m)
+            cls = type(self.kex_engine)
+            names = [n for n, c in self._kex_info.items() if c is cls]
+            tap.agreed_kex[side].append(names[0] if len(names) == 1 else None)
+            return r
+
+    TapTransport.__name__ = "TapTransport%d" % side
+    return TapTransport
+
+
+_moduli = []
+
+
+def modulus_pack():
+    if not _moduli:
+        from paramiko.primes import ModulusPack
+        m = ModulusPack()
+        m.read_file(os.path.join(KEYDIR, "moduli"))
+        _moduli.append(m)
+    return _moduli[0]
+
+
+def tapped_pair(sim, link=None, **kw):
+    """Pair whose link is observed by a LinkTap (attribute .tap)."""
+    from .wiretap import LinkTap
+    link = link or Link(sim)
+    tap = LinkTap(link, sim)
+    p = Pair(sim, link=link, client_cls=tap_transport(kw.pop("client_cls", Transport), tap, 0),
+             server_cls=tap_transport(kw.pop("server_cls", Transport), tap, 1), **kw)
+    p.tap = tap
+    p.ts._modulus_pack = modulus_pack()
+    return p
+
+
+KEX_NAMES = tuple(Transport._preferred_kex)
+KEX_COST = {  # rough relative wall cost, used to weight choices
+    "curve25519-sha256@libssh.org": 1, "ecdh-sha2-nistp256": 1, "ecdh-sha2-nistp384": 2,
+    "ecdh-sha2-nistp521": 3, "diffie-hellman-group1-sha1": 2, "diffie-hellman-group14-sha1": 5,
+    "diffie-hellman-group14-sha256": 5, "diffie-hellman-group-exchange-sha1": 5,
+    "diffie-hellman-group-exchange-sha256": 5, "diffie-hellman-group16-sha512": 14,
+}
+HOSTKEY_ALGOS = {  # host key algorithm name -> harness key file
+    "ssh-ed25519": "ed25519_1", "ecdsa-sha2-nistp256": "ecdsa256_1", "ecdsa-sha2-nistp384": "ecdsa384_1",
+    "ecdsa-sha2-nistp521": "ecdsa521_1", "rsa-sha2-512": "rsa1", "rsa-sha2-256": "rsa1", "ssh-rsa": "rsa1",
+}
+
+
+def configure(t, kex=None, cipher=None, mac=None, comp=None, hostkey_algo=None):
+    """Restrict a transport's preferences through its public SecurityOptions."""
+    o = t.get_security_options()
+    if kex is not None:
+        o.kex = [kex] if isinstance(kex, str) else list(kex)
+    if cipher is not None:
+        o.ciphers = [cipher] if isinstance(cipher, str) else list(cipher)
+    if mac is not None:
+        o.digests = [mac] if isinstance(mac, str) else list(mac)
+    if comp is not None:
+        o.compression = [comp] if isinstance(comp, str) else list(comp)
+    if hostkey_algo is not None:
+        o.key_types = [hostkey_algo] if isinstance(hostkey_algo, str) else list(hostkey_algo)
+
+
+def echo_round(sim, ch, sch, n1, n2):
+    """client sends n1 bytes, server reads them and answers n2 bytes; returns ok."""
+    d1 = sim.payload.randbytes(n1)
+    d2 = sim.payload.randbytes(n2)
+    ch.sendall(d1)
+    got = b""
+    while len(got) < n1:
+        x = sch.recv(65536)
+        if not x:
+            break
+        got += x
+    sch.sendall(d2)
+    back = b""
+    while len(back) < n2:
+        x = ch.recv(65536)
+        if not x:
+            break
+        back += x
+    return got == d1 and back == d2
